@@ -67,11 +67,12 @@ def _defers(prog, name, seen=None):
     b = prog.bodies.get(name)
     if b is None:
         return False
-    for (_, _, c) in b.calls():
-        if c.target == "ebr_impl::guard::Guard::defer_unchecked":
-            return True
-        if c.target in prog.auto_inline() and _defers(prog, c.target, seen):
-            return True
+    for bb_ in [b] + prog.closures_of(name):
+        for (_, _, c) in bb_.calls():
+            if c.target == "ebr_impl::guard::Guard::defer_unchecked":
+                return True
+            if c.target in prog.auto_inline() and _defers(prog, c.target, seen):
+                return True
     return False
 
 
@@ -89,7 +90,10 @@ def call_graph(prog):
             nt = norm(tg or "")
             if nt in ("std::thread::LocalKey::with", "std::thread::LocalKey::try_with", "std::result::Result::map",
                       "std::result::Result::map_err", "std::result::Result::unwrap_or_else", "std::array::from_fn",
-                      "std::array::map", "std::iter::Iterator::fold"):
+                      "std::array::map", "std::iter::Iterator::fold", "std::iter::Iterator::for_each",
+                      "std::iter::Iterator::any", "std::iter::Iterator::all") or \
+                    nt.endswith((" as std::iter::Iterator>::for_each", " as std::iter::Iterator>::any",
+                                 " as std::iter::Iterator>::all")):
                 for cn in c.closure_args():
                     s.add(cn)
             # closures handed to a helper introduced by refactoring (not part of the baseline vocabulary, hence not a
@@ -161,7 +165,7 @@ def rule_depth_guard(ctx):
         ncyc += 1
         comp = sorted(comp)
         r.functions.update(comp)
-        if comp != [DGN]:
+        if sorted({prog.home(x) for x in comp}) != [DGN]:      # (closures of the function belong to it)
             r.violate(comp[0], "cycle", "unexpected recursion reachable from dispose through %s" % comp)
             continue
         b = prog.body(DGN)
@@ -606,7 +610,7 @@ def rule_no_unbounded_recursion(ctx):
     n = 0
     for comp in comps:
         comp = sorted(comp)
-        if comp == [DGN]:
+        if sorted({prog.home(x) for x in comp}) == [DGN]:
             r.instance("cycle {dispose_general_node}: depth-guarded (REC-DEPTH-GUARD)", True)
             n += 1
             continue
